@@ -1,6 +1,7 @@
 /- operation table of the driver -/
 import XV.Driver.Util
 import XV.Spec.Magic
+import XV.Spec.OpTables
 namespace XV.Driver
 open XV XV.Model
 
@@ -23,6 +24,10 @@ def dispatch (op : String) (args : List String) : String :=
       | none => "(err bad-arg)"
   | "c08.failures", [] => showFailures Spec.Magic.failures
   | "c08.tiefailures", [] => showFailures Spec.Magic.tieFailures
+  -- C09
+  | "c09.failures", [] => showFailures Spec.OpTables.allFailures
+  | "c09.tables", [] => " ".intercalate (Gen.allTables.map fun t =>
+      s!"{t.name}:{t.version.1}.{t.version.2}:{if (Spec.OpTables.refFor t).isSome then "ref" else if (Spec.OpTables.snapFor t).isSome then "snap" else "none"}")
   | _, _ => "(err bad-op)"
 
 end XV.Driver
